@@ -151,7 +151,7 @@ def gates(c, tier):
     for k in ("schedule:random", "schedule:sequential", "schedule:alternation", "alternations>=10", "direct:registered-decodes-custom",
               "direct:unregistered-generic-control", "direct:unregistered-filter-protocolerror", "direct:unregistered-auth-protocolerror",
               "direct:duplicate-refused", "direct:builtin-clash-refused", "custom-bytes-in-sequence", "registration-in-sequence",
-              "caller-buffer-shared-between-sessions", "direct:multi-control-messages", "direct:same-number-different-form", "direct:nested-custom-filter", "fresh-process-reference-runs"):
+              "caller-buffer-shared-between-sessions", "direct:multi-control-messages", "direct:same-number-different-form", "direct:nested-custom-filter", "direct:deepcopy-independence", "fresh-process-reference-runs"):
         if c.get(k, 0) == 0:
             out.append(f"never observed {k}")
     for sub in range(8):
@@ -482,6 +482,36 @@ def direct_checks():
                 vio.append((f"registration-leaked:{kind}", f"session without the registration accepted the custom {kind}: {res!r}"))
             except sl.ProtocolError:
                 obs[f"direct:unregistered-{kind}-protocolerror"] = 1
+    # a deep copy of a session is another session: registrations made afterwards on either side stay on that side
+    import copy as _copy
+
+    for kind, data3, cls3 in (("filter", bytes_custom_filter(31), CustomFilter), ("auth", bytes_custom_auth(32), CustomAuth), ("control", bytes_custom_control(33, "server"), CustomControl)):
+        orig = sl.LDAPServer()
+        twin = _copy.deepcopy(orig)
+        getattr(orig, REG[kind][0])(cls3)
+        late = _copy.deepcopy(orig)  # copied after the registration: has it
+        for name, sess3, expect_custom in (("copy-made-before", twin, False), ("original", orig, True), ("copy-made-after", late, True)):
+            try:
+                m4 = sess3.receive(data3)[0]
+                decoded_custom = cls3.__name__ in repr(m4)
+            except sl.ProtocolError:
+                decoded_custom = False
+            if decoded_custom != expect_custom:
+                vio.append((f"deepcopy-shares-registrations:{kind}:{name}", f"{name} session {'decodes' if decoded_custom else 'does not decode'} the custom {kind}; expected {'custom' if expect_custom else 'unknown'}"))
+            else:
+                obs["direct:deepcopy-independence"] = obs.get("direct:deepcopy-independence", 0) + 1
+        # and the other way round: a registration on the copy does not reach the original
+        o2 = sl.LDAPServer()
+        c2 = _copy.deepcopy(o2)
+        getattr(c2, REG[kind][0])(cls3)
+        for name, sess3, expect_custom in (("original-after-copy-registered", o2, False), ("registering-copy", c2, True)):
+            try:
+                m4 = sess3.receive(data3)[0]
+                decoded_custom = cls3.__name__ in repr(m4)
+            except sl.ProtocolError:
+                decoded_custom = False
+            if decoded_custom != expect_custom:
+                vio.append((f"deepcopy-shares-registrations:{kind}:{name}", f"{name} {'decodes' if decoded_custom else 'does not decode'} the custom {kind}"))
     # the custom filter nested under and / or / not
     regf = sl.LDAPServer()
     regf.register_filter(CustomFilter)
